@@ -73,6 +73,21 @@ def block_granularity(rep, fb, rule):
             catch_all = any(h.get('caught') == '...' for h in tr['c'][1:])
             rep.check(len(calls) == 1 and not loops and catch_all, rule, sig, locstr(n),
                       'try body holds %d process() call(s), %d loop(s); catch(...): %s' % (len(calls), len(loops), catch_all))
+    # inside a block an error ends the block: every handler of BasicContentExecutor::process leaves by a throw, so the failure of a nested
+    # element reaches the engine's per-block handler instead of letting the remaining elements of the block run
+    pr = fb.fn('uscxml::BasicContentExecutor::process')
+    g = cfgm.CFG(pr)
+    throws = [x['id'] for x in pr.walk() if x['k'] == 'CXXThrowExpr']
+    handlers = [x for x in pr.walk() if x['k'] == 'CXXCatchStmt']
+    rep.minimum(rule, len(handlers), 2, 'handlers in BasicContentExecutor::process')
+    for h in handlers:
+        hb = g.handler_block.get(h['id'])
+        if hb is None:
+            raise AnalysisBroken('BasicContentExecutor::process: handler at %s has no CFG block' % locstr(h))
+        leak = g.can_reach((hb, -1), ['EXIT'], avoid=throws)
+        rep.check(leak is None, rule, 'BasicContentExecutor::process|catch(%s) leaves by throw' % (h.get('caught') or '...').split('::')[-1], locstr(h),
+                  'the handler for %s %s' % (h.get('caught') or '...', 'always re-throws: the enclosing block ends with the failed element' if leak is None else
+                                            'can FALL THROUGH to the normal end of process(): the elements after the failed container in the same block are still executed'))
 
 
 
